@@ -248,10 +248,13 @@ def split_trace(trace, shards, wd, boundary=("reset",)):
     return parts, lines
 
 
-def tlc_validate(module, cfg, trace, wd, shards=8, xmx="3g", timeout=3000, env=None, boundary=("reset",)):
+def tlc_validate(module, cfg, trace, wd, shards=8, xmx="3g", timeout=3000, env=None, boundary=("reset",), universe_file=None):
     """Validate a recorded trace against spec/<module>.tla. Returns dict with verdicts
     (global line numbers, 1-based), drift notes, and acceptance."""
     t = time.time()
+    if universe_file:          # constants of the run (read by the trace spec through IOEnv.UNIVERSE)
+        env = dict(env or {})
+        env["UNIVERSE"] = universe_file
     parts, lines = split_trace(trace, shards, wd, boundary)
     procs = []
     for i, (p, off) in enumerate(parts):
